@@ -58,6 +58,8 @@ func c02Names(r *rng) []string {
 	for _, p := range c02HostCollisions() {
 		names = append(names, p[0], p[1])
 	}
+	// host names with non-ASCII labels (IDN in Unicode form): the lookup keys are hashes of BYTES
+	names = append(names, mIDNNames...)
 	_ = r
 
 	return names
@@ -93,7 +95,7 @@ func c02GenLine(r *rng, names []string) string {
 	case 7:
 		return "@@||" + d + "^" + pick(r, []string{"", "$important", "$badfilter"})
 	case 8:
-		return "||" + d + "^$" + pick(r, []string{"important", "badfilter", "important,badfilter", "dnstype=A", "dnstype=~AAAA", "client=127.0.0.1", "ctag=device_pc", "denyallow=" + pick(r, names), "dnsrewrite=1.2.3.4", "dnsrewrite=REFUSED"})
+		return "||" + d + "^$" + pick(r, []string{"important", "badfilter", "important,badfilter", "dnstype=A", "dnstype=~AAAA", "dnstype=" + mDNSTypeConflict(r), "dnstype=" + mDNSTypeConflict(r), "dnstype=" + mDNSTypeValue(r), "client=127.0.0.1", "ctag=device_pc", "denyallow=" + pick(r, names), "dnsrewrite=1.2.3.4", "dnsrewrite=REFUSED"})
 	case 9: // browser-only modifiers: must be ignored by the DNS engine
 		return "||" + d + "^$" + pick(r, []string{"third-party", "~third-party", "script", "~script", "script,~image", "domain=" + pick(r, poolDomains), "domain=~" + pick(r, poolDomains), "match-case", "popup", "important,third-party", "document", "image,important"})
 	case 10:
@@ -172,30 +174,46 @@ func c02Gen(r *rng, n int, w *bufio.Writer) {
 			// a rule, its $badfilter twin, and AFTER them (in one list, so in match order) the only survivor
 			d := pick(r, focus)
 			l := r.n(nLists)
-			surv := pick(r, []string{"||" + d + "^$important", "@@||" + d + "^", "||" + d + "^$dnstype=~TXT"})
+			surv := pick(r, []string{"||" + d + "^$important", "@@||" + d + "^", "||" + d + "^$dnstype=~TXT", "||" + d + "^$dnstype=" + mDNSTypeConflict(r)})
 			for _, t := range []string{"||" + d + "^", "||" + d + "^$badfilter", surv} {
 				all = append(all, t)
 				bodies[l] = append(bodies[l], t)
 			}
 			used = append(used, d)
 		}
+		// lists that yield no rule (empty, comments, rejected lines, ignored cosmetic rules) among the others
+		mb := make([]mBody, len(bodies))
+		for j, b := range bodies {
+			mb[j] = mBody{lines: b}
+		}
+		if r.chance(1, 3) {
+			mb = mInsertRuleLess(r, bodies, len(ids))
+		}
 		var lists []filterlist.RuleList
 		var note []string
-		for j, b := range bodies {
-			lists = append(lists, &filterlist.StringRuleList{ID: ids[j], RulesText: strings.Join(b, "\n") + "\n", IgnoreCosmetic: r.chance(1, 2)})
-			note = append(note, fmt.Sprintf("[%d] %s", ids[j], strings.Join(b, " ¶ ")))
+		for j, b := range mb {
+			text := strings.Join(b.lines, "\n") + "\n"
+			if b.lines == nil && r.chance(1, 2) {
+				text = ""
+			}
+			ign := r.chance(1, 2)
+			if b.ign != nil {
+				ign = *b.ign
+			}
+			lists = append(lists, &filterlist.StringRuleList{ID: ids[j], RulesText: text, IgnoreCosmetic: ign})
+			note = append(note, fmt.Sprintf("[%d] %s", ids[j], strings.Join(b.lines, " ¶ ")))
 		}
 		s, err := filterlist.NewRuleStorage(lists)
 		if err != nil {
 			panic(err)
 		}
 		engine := urlfilter.NewDNSEngine(s)
-		scan := s.NewRuleStorageScanner()
+		// the reference rule set is read list by list, not through the storage scanner the engine is built from
 		var items []string
 		var nets []*rules.NetworkRule
 		var hostnames []string
-		for scan.Scan() {
-			f, idx := scan.Rule()
+		for _, sr := range mScanLists(lists) {
+			f, idx := sr.rule, sr.idx
 			items = append(items, wlist(fmt.Sprint(idx), wrule(f)))
 			switch f := f.(type) {
 			case *rules.NetworkRule:
@@ -205,8 +223,12 @@ func c02Gen(r *rng, n int, w *bufio.Writer) {
 			}
 		}
 		rulesW := wlist(items...)
+		qtypes := mDNSTypesOf(nets)
 		for j := 0; j < 6 && i < n; j, i = j+1, i+1 {
 			d := genDNSRequest(r, all)
+			if len(qtypes) > 0 && r.chance(1, 2) {
+				d.DNSType = pick(r, qtypes) // a record type some rule's $dnstype names (permitted, restricted or both)
+			}
 			switch r.n(10) {
 			case 4, 5, 6, 7, 8: // a name the scenario is about, or a subdomain of it
 				d.Hostname = pick(r, []string{"", "", "", "www.", "sub."}) + pick(r, focus)
